@@ -1,9 +1,9 @@
 #!/bin/bash
 # try_wt.sh <patch.diff> <Cnn> [tier]: apply a seeded change to the private worktree /tmp/wt/mine, run the check
 # against it (VERIF_REPO), undo the change.  /repo itself is never touched.
-P=$1; ID=$2; T=${3:-quick}
+P=$(realpath $1); ID=$2; T=${3:-quick}
 WT=${WT:-mine}; W=/tmp/wt/$WT
-[ -d $W ] || /root/wt/mkwt.sh $WT >/dev/null 2>&1
+[ -d $W ] || /verif/harness/mkwt.sh $WT >/dev/null 2>&1
 git -C $W reset -q --hard $(git -C /repo rev-parse HEAD)
 if ! git -C $W apply --check "$P" 2>/dev/null; then echo "PATCH DOES NOT APPLY: $P"; exit 9; fi
 git -C $W apply "$P"
